@@ -37,7 +37,7 @@ func (c *c11Ctx) repl() {
 			}
 			for _, sd := range c.jq.TopDefs(name, 1) {
 				if strings.HasPrefix(sd.File.Rel, "pkg/interp/") && strings.HasPrefix(sd.Def.Args[0], "$") {
-					slurpFns[sd.Key()] = sd
+					slurpFns[sd.Key()] = c.inl(sd)
 				}
 			}
 		}
@@ -102,8 +102,8 @@ func (c *c11Ctx) repl() {
 	}
 	// every definition that consumes a descriptor is the target of some slurps table (otherwise the
 	// user-level function it implements was re-routed to another handler or lost)
-	for _, d := range c.jq.Defs {
-		if d.Parent != nil || !strings.HasPrefix(d.File.Rel, "pkg/interp/") || len(d.Def.Args) != 1 || !strings.HasPrefix(d.Def.Args[0], "$") || d == evaluator {
+	for _, d := range c.interpDefs() {
+		if len(d.Def.Args) != 1 || !strings.HasPrefix(d.Def.Args[0], "$") || d.Key() == evaluator.Key() {
 			continue
 		}
 		consumes := false
@@ -124,10 +124,7 @@ func (c *c11Ctx) repl() {
 
 	// --- feeders of _repl/1
 	total := 0
-	for _, d := range c.jq.Defs {
-		if d.Parent != nil || !strings.HasPrefix(d.File.Rel, "pkg/interp/") {
-			continue
-		}
+	for _, d := range c.interpDefs() {
 		for _, f := range fw.JQCalls(d.Def.Body) {
 			if f.Name == "_repl" && len(f.Args) == 1 {
 				total++
@@ -136,10 +133,7 @@ func (c *c11Ctx) repl() {
 	}
 	fed := 0
 	allArrays := true
-	for _, d := range c.jq.Defs {
-		if d.Parent != nil || !strings.HasPrefix(d.File.Rel, "pkg/interp/") {
-			continue
-		}
+	for _, d := range c.interpDefs() {
 		d := d
 		n := 0
 		fw.WalkJQ(d.Def.Body, func(x any) bool {
@@ -274,7 +268,7 @@ func (c *c11Ctx) arrayValued(q *gojq.Query, depth int, why *string) bool {
 			*why = "`" + fw.JQStr(e) + "` is not an array constructor"
 			return false
 		}
-		return c.arrayValued(cands[0].Def.Body, depth+1, why)
+		return c.arrayValued(c.inl(cands[0]).Def.Body, depth+1, why)
 	}
 	*why = "`" + fw.JQStr(e) + "` is not an array constructor"
 	return false
